@@ -121,7 +121,7 @@ CHECKS = {
         level='exploration',
         units=[U('^TestC13$', (8, 12000), (16, 100000))],
         essential_labels=['refused-add', 'refused-quantile', 'refused-merge', 'refused-reweight', 'refused-reweight-store-level', 'refused-constructor', 'accept-at-boundary', 'state:empty', 'state:non-empty', 'variant:exact', 'variant:plain', 'mismatch:kind', 'mismatch:alpha', 'mismatch:offset', 'near-equal-mapping-decoded'],
-        assumptions=COMMON_ASSUMPTIONS + ["NaN weights/factors/constructor parameters are outside the property", "AddWithCount(invalid value, 0) on the exact variant may return nil or the error; only 'changes nothing' is required"],
+        assumptions=COMMON_ASSUMPTIONS + ["NaN weights/factors/constructor parameters are outside the property"],
     ),
     'C14': dict(
         level='exploration',
